@@ -5,6 +5,7 @@ import (
 
 	"cosmossdk.io/math"
 	sdk "github.com/cosmos/cosmos-sdk/types"
+	stakingtypes "github.com/cosmos/cosmos-sdk/x/staking/types"
 
 	"hv/env"
 	"hv/nd"
@@ -14,13 +15,21 @@ import (
 
 // decayState: asset 0 with a symbolic decay schedule and stake on validator 0 (module stake,
 // pending distribution rewards, reward indices), optional second decaying asset.
+// decayVal1Unbonding: set by a harness (before decayState) to make validator 1 an unbonding validator.
+var decayVal1Unbonding bool
+
 func decayState(rate math.LegacyDec, symbolicClock bool, second bool) (*env.Env, time.Time, types.AllianceAsset) {
 	t0 := nd.TimeRange("t0", TLo, THi)
 	e := env.New(t0, 100)
 	mod := e.Ak.GetModuleAddress(types.ModuleName)
 	for v := 0; v < 2; v++ {
 		n := string(rune('0' + v))
-		NewValidator(e, Vals[v], 3, math.NewInt(2000000), math.LegacyNewDec(2000000))
+		status := stakingtypes.Bonded
+		if v == 1 && decayVal1Unbonding {
+			// left the active set but still has outstanding rewards in x/distribution
+			status = stakingtypes.Unbonding
+		}
+		NewValidator(e, Vals[v], status, math.NewInt(2000000), math.LegacyNewDec(2000000))
 		e.Stk.SetDelegationRaw(mod, Vals[v], stakingDelegation(mod, Vals[v], math.LegacyNewDec(1000000)))
 		pend := nd.IntRange("pend_"+n, "0", Pow12)
 		if !pend.IsZero() {
@@ -97,6 +106,7 @@ func H_C14_decay() {
 	id := "C14.decay"
 	n := nd.Choice("n", 4) // whole intervals elapsed
 	two := nd.Choice("two", 2)
+	decayVal1Unbonding = nd.Choice("val1unbonding", 2) == 1
 	rate := nd.DecRange("crate", "0.000000000000000001", "2")
 	e, t0, a := decayState(rate, false, two == 1)
 	rem := nd.DurRange("rem", 0, int64(time.Hour)-1)
